@@ -329,6 +329,29 @@ theorem library_instance_unlocated {fuel : Nat} {st st' : State} {decls : List L
   refine ⟨fun l hl => unrole_subset (InterpLoc.stIn_iff.1 i.1) hl, fun defs hr kv hkv l hl => ?_⟩
   exact unrole_subset (i.2.1 defs hr kv hkv) hl
 
+/-- a library source that `factoryOfText` accepts: `(define-library (m))` -/
+example : factoryOfText [.ident "m"] "(define-library (m))" = .ok (.ast []) := by
+  have lex_lib : Lex.all "(define-library (m))".toList =
+      ([⟨.lparen, some (1, 2)⟩, ⟨.ident "define-library", some (1, 16)⟩, ⟨.lparen, some (1, 18)⟩,
+        ⟨.ident "m", some (1, 19)⟩, ⟨.rparen, some (1, 20)⟩, ⟨.rparen, some (1, 21)⟩], none) := by
+    simp [Lex.all, Lex.allAux, Lex.next, Lex.skipAtmosphere, Lex.token, Lex.adv, Lex.isWs,
+      Lex.normalIdentifier, Lex.takeRun, Lex.isDigit, Except.map, Lex.isSubsequent, Lex.isInitial,
+      Lex.isLetter, Lex.testDelimiter, Lex.isDelimiter, bind, Except.bind, pure, Except.pure]
+  have read_lib : ∃ s', Read.nextDatum { toks := [⟨.lparen, none⟩, ⟨.ident "define-library", none⟩,
+        ⟨.lparen, none⟩, ⟨.ident "m", none⟩, ⟨.rparen, none⟩, ⟨.rparen, none⟩], lexErr := none } =
+      .ok (some (.pair (.sym "define-library" none) (.pair (.pair (.sym "m" none) (.nil none) none)
+        (.nil none) none) none), s') := by
+    simp [Read.nextDatum, Read.advance, Read.currentDatum, Read.fuelFor, Read.listOrPair, Read.listLoop,
+      Read.advanceUnwrap, Read.snoc, Datum.withLoc, bind, Except.bind, pure, Except.pure]
+  have xform_lib : ∀ env, Xform.toStatement 4056 (.pair (.sym "define-library" none)
+        (.pair (.pair (.sym "m" none) (.nil none) none) (.nil none) none) none) env =
+      (.ok (.libraryDef [.ident "m"] [] none), env) := fun _ => rfl
+  obtain ⟨s', h1⟩ := read_lib
+  unfold factoryOfText
+  simp only [Read.ofText, lex_lib, List.map, List.length]
+  rw [factoryOfText.go]
+  simp [h1, Datum.strip, Xform.xformFuel, Datum.size, xform_lib]
+
 /-- the mechanism on the datum of `(define-library (m) (begin (define (f) y)))` as the reader
 delivers it for a text at line 1: stripped, then transformed — no position is left -/
 example : ∃ n decls l env', Xform.toStatement 100
